@@ -426,6 +426,10 @@ class Program:
             rel = relpath(fd.get("file") or u)
             return ("%s:%s" % (rel, fd["n"])) in SIGNATURES or fd["n"] in SIGNATURES
         n = inline.inline_unit([fd for fd in d["functions"] if (fd.get("file") or u) == u], known)
+        if not hasattr(self, "new_helpers"):
+            self.new_helpers = set()
+        for nm in inline.LAST_CANDIDATES:
+            self.new_helpers.add((u, nm))
         if n:
             self.inlined = getattr(self, "inlined", 0) + n
 
